@@ -9,6 +9,8 @@ import (
 	"math"
 	"os"
 	"strings"
+	"sync"
+	"time"
 
 	"golang.org/x/tools/go/ssa"
 )
@@ -100,6 +102,8 @@ type Machine struct {
 	funcsSeen  map[*ssa.Function]bool
 	events     []event
 	recording  bool
+	outstanding []*asyncJob
+	unknownLabels []string
 
 	// stats (accumulated across paths)
 	instrs int64
@@ -315,6 +319,10 @@ func (m *Machine) assertCond(c value, label string) {
 		panic(pathEnd{status: StViolation, msg: label})
 	case symBool:
 		neg := m.tt.Not(c.t)
+		if m.h.pool != nil {
+			m.submitAsync(neg, label)
+			return
+		}
 		m.solver.Push()
 		m.solver.Assert(neg)
 		r := m.solver.Check()
@@ -406,4 +414,131 @@ func (m *Machine) event(kind string, obj *value, val value) {
 		gid = m.sched.cur.id
 	}
 	m.events = append(m.events, event{kind, obj, val, gid})
+}
+
+// ---- asynchronous assertion checking ----
+
+type asyncJob struct {
+	pc      []*Term
+	neg     *Term
+	finding Finding
+	inputs  []InputRec
+	done    chan asyncResult
+}
+
+type asyncResult struct {
+	res    SatResult
+	inputs []InputRec
+}
+
+type asyncPool struct {
+	jobs chan *asyncJob
+	wg   sync.WaitGroup
+	mu   sync.Mutex
+	queries, nsat, nunsat, nunknown int
+	time time.Duration
+}
+
+func newAsyncPool(n int, bin string, timeoutMS int) *asyncPool {
+	p := &asyncPool{jobs: make(chan *asyncJob, 4096)}
+	for i := 0; i < n; i++ {
+		p.wg.Add(1)
+		go func() {
+			defer p.wg.Done()
+			var solver *Solver
+			defer func() {
+				if solver != nil {
+					p.mu.Lock()
+					p.queries += solver.Queries
+					p.nsat += solver.NSat
+					p.nunsat += solver.NUnsat
+					p.nunknown += solver.NUnknown
+					p.time += solver.Time
+					p.mu.Unlock()
+					solver.Close()
+				}
+			}()
+			for job := range p.jobs {
+				if solver == nil {
+					solver = NewSolver(bin, timeoutMS)
+				}
+				job.done <- runAsyncJob(solver, job)
+				if solver.sinceRestart > 200 {
+					solver.Restart()
+				}
+			}
+		}()
+	}
+	return p
+}
+
+func runAsyncJob(solver *Solver, job *asyncJob) (out asyncResult) {
+	defer func() {
+		if r := recover(); r != nil {
+			out = asyncResult{res: Unknown}
+		}
+	}()
+	solver.PopAll()
+	solver.Push()
+	for _, t := range job.pc {
+		solver.Assert(t)
+	}
+	solver.Assert(job.neg)
+	r := solver.Check()
+	out.res = r
+	if r == Sat {
+		var vars []*Term
+		for _, in := range job.inputs {
+			if in.term != nil {
+				vars = append(vars, in.term)
+			}
+		}
+		vals := solver.Values(vars)
+		out.inputs = make([]InputRec, len(job.inputs))
+		copy(out.inputs, job.inputs)
+		for i := range out.inputs {
+			if out.inputs[i].term != nil {
+				out.inputs[i].Value = vals[out.inputs[i].term.op]
+			}
+		}
+	}
+	solver.PopAll()
+	return out
+}
+
+func (p *asyncPool) close() {
+	close(p.jobs)
+	p.wg.Wait()
+}
+
+func (m *Machine) submitAsync(neg *Term, label string) {
+	job := &asyncJob{
+		pc:     append([]*Term(nil), m.pc...),
+		neg:    neg,
+		inputs: append([]InputRec(nil), m.inputs...),
+		done:   make(chan asyncResult, 1),
+		finding: Finding{Harness: m.h.Name, Instance: m.h.Instance, Label: label, Kind: "assert", Msg: "assertion can be false",
+			Params: m.h.Params, Stack: m.stack(), Decisions: append([]int(nil), m.decisions...)},
+	}
+	m.outstanding = append(m.outstanding, job)
+	m.h.pool.jobs <- job
+}
+
+// collectAsync waits for the path's outstanding assertion jobs.
+func (m *Machine) collectAsync() (violations int, unknown int) {
+	for _, job := range m.outstanding {
+		r := <-job.done
+		switch r.res {
+		case Sat:
+			f := job.finding
+			f.Inputs = r.inputs
+			m.findings = append(m.findings, f)
+			violations++
+		case Unknown:
+			unknown++
+			m.unknownLabels = append(m.unknownLabels, job.finding.Label)
+		}
+	}
+	m.outstanding = nil
+	return
 }
